@@ -208,13 +208,13 @@ COMMON_RULE = ("a case = one seeded history (chooser-driven API calls with choos
                "harness/fsm_track.hpp / fsm_states.hpp; distinct by hash of the complete event sequence; ")
 
 
-def run_random(prop, tier, seed, verdict, tree, quick_cases=4000, thorough_cases=150000, configs=None, ops=24, extra_args=()):
+def run_random(prop, tier, seed, verdict, tree, quick_cases=20000, thorough_cases=600000, configs=None, ops=24, extra_args=()):
     r = Runner(prop, tier, seed, verdict, tree)
     configs = configs if configs is not None else select(prop)
     for variant in tree.header_variants():
         built = r.build_many(configs, variant)
         ncases = cases_for(tier, quick_cases, thorough_cases)
-        shards = 1 if tier == "quick" else max(1, C.NCPU // 2)
+        shards = 2 if tier == "quick" else max(1, C.NCPU // 2)
         jobs = []
         for c, b in built:
             for sh in range(shards):
@@ -252,4 +252,237 @@ def prop_generic(prop, tier, seed, verdict, tree):
                           "a program calling Plan::first()/last() on the mutable plan handle does not link: "
                           + next((l for l in (r.first_last_log or "").splitlines() if "undefined reference" in l), "")[:400])
     r.finish(COMMON_RULE + RULES.get(prop, ""), extra)
+    return r
+
+
+# ---------------------------------------------------------------------------
+# C16: the differential part — same decision stream, logging compiled out / in / verbose,
+# logger attached throughout / never / toggled
+
+def prop_c16(prop, tier, seed, verdict, tree):
+    r = run_random(prop, tier, seed, verdict, tree)
+    ncases = cases_for(tier, 6000, 200000)
+    runs_compared = 0
+    for variant in tree.header_variants():
+        for base in DIFF_BASES:
+            vs = log_variants(base)
+            built = r.build_many(vs, variant)
+            if len(built) != 3:
+                continue
+            jobs = []
+            labels = []
+            for c, b in built:
+                modes = [9] if c["name"].endswith("nolog") else [0, 1, 2]
+                for m in modes:
+                    df = os.path.join(verdict.outdir, "digest-%s-%s-%d.bin" % (variant[0], c["name"], m))
+                    jobs.append((c, b.path, ["--cases", str(ncases), "--ops", "24", "--logmode", str(m), "--digestfile", df]))
+                    labels.append((c["name"], m, df))
+            r.run_jobs(jobs, timeout=900 if tier == "quick" else 7200)
+            ref_name, ref_mode, ref_file = labels[0]
+            ref = read_u64(ref_file)
+            if not ref:
+                verdict.harness_error("C16 differential: no digests from %s" % ref_name)
+                continue
+            for name, mode, f in labels[1:]:
+                d = read_u64(f)
+                runs_compared += 1
+                if len(d) != len(ref):
+                    verdict.harness_error("C16 differential: %s produced %d digests, reference %d" % (name, len(d), len(ref)))
+                    continue
+                bad = [i for i in range(len(d)) if d[i] != ref[i]]
+                if bad:
+                    what = {9: "compiled out", 0: "attached throughout", 1: "never attached", 2: "attached/detached midway"}[mode]
+                    verdict.violation("logging-perturbs-the-machine|%s|%s" % (name.split("-")[-1], what.replace(" ", "-")),
+                                      "configuration %s with the logger %s: %d of %d histories ran different callbacks / reached different "
+                                      "states than the same histories with logging compiled out (first: case %d; re-run with "
+                                      "--cases %d --case %d --logmode %d on both builds)" % (name, what, len(bad), len(d), bad[0], ncases, bad[0], mode))
+            for _, _, f in labels:
+                try:
+                    os.unlink(f)
+                except OSError:
+                    pass
+    r.finish(COMMON_RULE + RULES["C16"] + "; plus a differential run of identical decision streams over {log compiled out, log, verbose log} x "
+             "{attached throughout, never attached, attached/detached at random points} compared by per-history digest of callbacks, "
+             "actions and observable state", {"differential_runs_compared": runs_compared, "differential_histories_per_run": ncases})
+    return r
+
+
+# ---------------------------------------------------------------------------
+# C17: prefill differential + memcheck
+
+def valgrind_run(r, verdict, built, ncases, prop_key_prefix, only_uninit):
+    """Run binaries under memcheck with the machines constructed in undefined memory."""
+    outdir = verdict.outdir
+    errors = 0
+
+    def one(cb):
+        c, b = cb
+        logf = os.path.join(outdir, "memcheck-%s.log" % c["name"])
+        cmd = ["valgrind", "--tool=memcheck", "--error-exitcode=97", "--track-origins=yes", "--num-callers=24", "-q", "--log-file=" + logf,
+               b.path, "--prop", r.prop, "--cases", str(ncases), "--ops", "16", "--fill", "6", "--out", outdir, "--seed", str(r.seed),
+               "--cfgname", c["name"]]
+        res = C.run_monitor(cmd, timeout=3600)
+        return c, logf, res
+
+    for c, logf, res in C.parallel(one, built):
+        if res.timed_out:
+            verdict.harness_error("memcheck run of %s timed out (inconclusive)" % c["name"])
+            continue
+        C.merge_stats(r.stats, {"memcheck_cases": int(res.stats.get("cases", 0))})
+        for v in res.viols:
+            verdict.violation(v["key"], v.get("msg", ""), replay=v.get("replay") or None, prop=v.get("prop"))
+        try:
+            text = open(logf, errors="replace").read()
+        except OSError:
+            text = ""
+        blocks = [b for b in re.split(r"\n(?===\d+== \n)|\n\n", text) if "==" in b]
+        for blk in re.split(r"==\d+== \n", text):
+            if not blk.strip():
+                continue
+            head = blk.strip().splitlines()[0]
+            head = re.sub(r"==\d+== ", "", head)
+            uninit = "uninitialised" in head
+            if only_uninit and not uninit:
+                continue
+            frames = re.findall(r"(?:at|by) 0x[0-9A-F]+: (.+?) \(", blk)
+            ff = [f for f in frames if "ffsm2::" in f]
+            if not ff:
+                continue
+            errors += 1
+            fn = re.sub(r"<.*", "", ff[0])
+            verdict.violation("%s|%s|%s" % (prop_key_prefix, head.split(" of size")[0].replace(" ", "-")[:60], fn[-80:]),
+                              "valgrind memcheck on %s (machine constructed in undefined memory): %s\n%s" % (c["name"], head, blk[:1500]))
+        if res.rc not in (0, 97) and res.rc is not None:
+            verdict.violation("%s|process-died|rc=%s" % (prop_key_prefix, res.rc), "fsmmon under valgrind ended rc=%s: %s" % (res.rc, res.stderr_tail[-500:]))
+    return errors
+
+
+def prop_c17(prop, tier, seed, verdict, tree):
+    r = run_random(prop, tier, seed, verdict, tree)
+    ncases = cases_for(tier, 3000, 60000)
+    compared = 0
+    for variant in tree.header_variants():
+        built = r.build_many(CONFIGS, variant)
+        jobs, labels = [], []
+        for c, b in built:
+            for fill in range(6):
+                df = os.path.join(verdict.outdir, "pf-%s-%s-%d.bin" % (variant[0], c["name"], fill))
+                jobs.append((c, b.path, ["--cases", str(ncases), "--ops", "20", "--fill", str(fill), "--digestfile", df]))
+                labels.append((c["name"], fill, df))
+        r.run_jobs(jobs, timeout=900 if tier == "quick" else 7200)
+        by_cfg = {}
+        for name, fill, f in labels:
+            by_cfg.setdefault(name, []).append((fill, f))
+        for name, lst in by_cfg.items():
+            ref = read_u64(lst[0][1])
+            for fill, f in lst[1:]:
+                d = read_u64(f)
+                compared += 1
+                if len(d) != len(ref) or not ref:
+                    verdict.harness_error("C17 prefill differential: %s fill %d produced %d digests, reference %d" % (name, fill, len(d), len(ref)))
+                    continue
+                bad = [i for i in range(len(d)) if d[i] != ref[i]]
+                if bad:
+                    pat = ["0x00", "0xFF", "0x01", "0xAA", "0x55", "random bytes"][fill]
+                    verdict.violation("behaviour-depends-on-prior-memory|fill=%s" % pat,
+                                      "configuration %s: %d of %d histories behave differently when the instance is constructed over memory "
+                                      "pre-filled with %s instead of 0x00 (first: case %d; re-run with --cases %d --case %d --fill %d)"
+                                      % (name, len(bad), len(d), pat, bad[0], ncases, bad[0], fill))
+            for _, f in lst:
+                try:
+                    os.unlink(f)
+                except OSError:
+                    pass
+        # memcheck: reads of indeterminate values inside the library
+        vg_cfgs = [c for c in CONFIGS if c["name"] in (("full3", "man3pay", "peer5man") if tier == "quick" else
+                                                        ("full3", "man3pay", "peer5man", "inj1L7", "one", "serhist", "bare3", "n6log"))]
+        vbuilt = r.build_many(vg_cfgs, variant, flags=["-O1", "-g", "-DVERIF_VALGRIND"], tag="-vg")
+        merr = valgrind_run(r, verdict, vbuilt, cases_for(tier, 250, 3000), "memcheck", only_uninit=True)
+        r.stats["memcheck_uninitialised_errors_in_ffsm2"] = r.stats.get("memcheck_uninitialised_errors_in_ffsm2", 0) + merr
+    r.finish(COMMON_RULE + RULES["C17"] + "; plus (a) the same histories on instances placement-constructed over 6 memory fill patterns, "
+             "compared by per-history digest, and (b) valgrind memcheck with the instance memory marked undefined",
+             {"prefill_runs_compared": compared, "prefill_histories_per_run": ncases})
+    return r
+
+
+# ---------------------------------------------------------------------------
+# C18: sanitizers, memcheck, allocation counters, undefined allocation symbols
+
+def san_key(stderr):
+    m = re.search(r"runtime error: (.+)", stderr)
+    if m:
+        msg = re.sub(r"0x[0-9a-f]+", "ADDR", m.group(1))
+        msg = re.sub(r"\d+ byte", "N byte", msg)
+        loc = re.search(r"machine(?:_dev)?\.hpp:(\d+)", stderr)
+        typ = re.search(r"for type '([^']+)'", m.group(1))
+        kind = msg.split(" ADDR")[0][:50].replace(" ", "-")
+        return "ubsan|%s|%s" % (kind, (typ.group(1) if typ else "")[:40])
+    m = re.search(r"ERROR: AddressSanitizer: ([a-zA-Z-]+)", stderr)
+    if m:
+        fr = re.findall(r"#\d+ 0x[0-9a-f]+ in (\S+)", stderr)
+        ff = [f for f in fr if "ffsm2" in f]
+        return "asan|%s|%s" % (m.group(1), re.sub(r"<.*", "", ff[0])[-70:] if ff else "?")
+    return None
+
+
+def prop_c18(prop, tier, seed, verdict, tree):
+    r = Runner(prop, tier, seed, verdict, tree)
+    reports = 0
+    compilers = ["g++"] if tier == "quick" else ["g++", "clang++"]
+    cfgs = CONFIGS if tier == "thorough" else [c for c in CONFIGS if c["name"] not in ("n8inj2", "n6log", "peer4nolog", "bare3")]
+    ncases = cases_for(tier, 2500, 60000)
+    env = {"ASAN_OPTIONS": "abort_on_error=0:detect_leaks=0:halt_on_error=1:exitcode=98", "UBSAN_OPTIONS": "print_stacktrace=1:halt_on_error=1:exitcode=98"}
+    for variant in tree.header_variants():
+        for cxx in compilers:
+            flags = SAN_FLAGS + (["-fno-sanitize=object-size"] if cxx == "clang++" else [])
+            built = r.build_many(cfgs, variant, flags=flags, cxx=cxx, tag="-san-" + cxx)
+            shards = 1 if tier == "quick" else 4
+
+            def abnormal(c, res):
+                nonlocal reports
+                reports += 1
+                k = san_key(res.stderr_tail)
+                if k:
+                    r.verdict.violation(k, "sanitizer report in %s (%s): %s" % (c["name"], cxx, res.stderr_tail[-1800:]))
+                else:
+                    r.verdict.violation("process-died|%s|rc=%s" % (c["name"], res.rc), "fsmmon %s (%s, sanitizers) ended rc=%s: %s" % (c["name"], cxx, res.rc, res.stderr_tail[-1200:]))
+
+            jobs = []
+            for c, b in built:
+                for sh in range(shards):
+                    jobs.append((c, b.path, ["--cases", str(ncases), "--ops", "24", "--shard", str(sh), "--shards", str(shards), "--fill", str(1 + sh % 5)]))
+            r.run_jobs(jobs, timeout=1800 if tier == "quick" else 14400, env=env, on_abnormal=abnormal)
+        # allocation counters: operator new / malloc family wrapped; nothing may be called inside FFSM2 scope
+        abuilt = r.build_many(cfgs, variant, flags=BASE_FLAGS + ["-DVERIF_COUNT_ALLOCS"], tag="-alloc",
+                              link=["-Wl,--wrap=malloc,--wrap=calloc,--wrap=realloc,--wrap=free"])
+        before = r.stats.get("allocations_in_ffsm2_scope", 0)
+        jobs = [(c, b.path, ["--cases", str(cases_for(tier, 3000, 60000)), "--ops", "24"]) for c, b in abuilt]
+        res = r.run_jobs(jobs, timeout=1800)
+        for c, sig, rr in res:
+            n = int(rr.stats.get("allocations_in_ffsm2_scope", 0))
+            if n:
+                verdict.violation("heap-allocation-inside-ffsm2|%s" % c["name"], "%d heap allocations/frees happened while an FFSM2 call was running outside user callbacks (%s)" % (n, c["name"]))
+        r.stats["alloc_counter_runs"] = r.stats.get("alloc_counter_runs", 0) + len(res)
+        # undefined allocation symbols of a TU that instantiates the whole API
+        obj = os.path.join(verdict.outdir, "allapi-%s.o" % variant[0])
+        for std in ("c++11", "c++17"):
+            p = subprocess.run(["g++", "-std=" + std, "-O0", "-I" + variant[1], '-DVERIF_FFSM2_HEADER="%s"' % variant[2], "-c",
+                                os.path.join(C.HARNESS, "allapi.cpp"), "-o", obj], capture_output=True, text=True)
+            if p.returncode != 0:
+                verdict.violation("allapi-does-not-compile|%s" % std, (p.stderr or "")[-600:])
+                continue
+            syms = subprocess.run(["nm", "-u", obj], capture_output=True, text=True).stdout.split()
+            bad = [s for s in syms if re.match(r"^(_Znwm|_Znam|_ZdlPv|_ZdaPv|_ZdlPvm|_ZdaPvm|malloc|calloc|realloc|free|posix_memalign|aligned_alloc)$", s)]
+            r.stats["allapi_undefined_symbols_inspected"] = r.stats.get("allapi_undefined_symbols_inspected", 0) + len(syms)
+            if bad:
+                verdict.violation("allocation-symbol-referenced|%s" % bad[0], "object file instantiating the whole API references %s" % ", ".join(bad))
+        # memcheck (all error kinds attributable to ffsm2 frames)
+        vg_cfgs = [c for c in CONFIGS if c["name"] in (("full3", "peer5man") if tier == "quick" else ("full3", "man3pay", "peer5man", "inj1L7", "man2inj2", "n8inj2"))]
+        vbuilt = r.build_many(vg_cfgs, variant, flags=["-O1", "-g", "-DVERIF_VALGRIND"], tag="-vg")
+        merr = valgrind_run(r, verdict, vbuilt, cases_for(tier, 250, 3000), "memcheck", only_uninit=False)
+        r.stats["memcheck_errors_in_ffsm2"] = r.stats.get("memcheck_errors_in_ffsm2", 0) + merr
+    r.finish(COMMON_RULE + RULES["C18"] + "; the same histories run under g++ (thorough: and clang++) AddressSanitizer+UndefinedBehaviorSanitizer with fatal "
+             "reports, under valgrind memcheck with the instance memory undefined, and in a build whose operator new/malloc family is wrapped and "
+             "counted while an FFSM2 call is running outside user callbacks; an all-API object file is inspected for allocation symbols",
+             {"sanitizer_reports": reports, "compilers": compilers})
     return r
